@@ -127,6 +127,11 @@ def gen_filter(rng, events, limit_pool=(None, None, None, 0, 1, 2, 3, 5, 100)):
             f["until"] = max(0, base + rng.choice([101, 1, 0, -1, 256, 65536]))
         if rng.random() < 0.05:
             f["since"] = 0
+    if rng.random() < 0.2:
+        # clients may send hex in either case; the relay lower-cases ids / authors when it validates the filter
+        for k in ("ids", "authors"):
+            if k in f:
+                f[k] = [v.upper() if rng.random() < 0.5 else v for v in f[k]]
     lim = rng.choice(limit_pool)
     if lim is not None:
         f["limit"] = lim
